@@ -6,21 +6,23 @@ LEAN_MODULES = ["KafVerif.Props.C15"]
 OBLIGATIONS = [
     "KafVerif.C15.restore_build_view",
     "KafVerif.C15.failover_preserves_view",
+    "KafVerif.C15.members_keep_working",
     "KafVerif.C15.cloneOld_violates",
 ]
 BUILDS = G.BUILDS
 ASSUMPTIONS = G.COMMON_ASSUMPTIONS + [
     "the last PutConsumerGroup before the failover succeeded (no injected put/delete fault): a failed write cannot be restored by anyone",
-    "the etcd store keeps the same ConsumerGroup message through EncodeConsumerGroup/DecodeConsumerGroup (protobuf round trip, not modelled); the in-memory store's cloneConsumerGroup is modelled field by field",
+    "the etcd store keeps the same ConsumerGroup message through EncodeConsumerGroup/DecodeConsumerGroup (protobuf round trip, not modelled but exercised: a share of the histories runs the coordinator over the real EtcdStore on an embedded etcd); the in-memory store's cloneConsumerGroup is modelled field by field",
     "which members had already re-joined an unfinished rebalance is not persisted (see C14): after a failover in PreparingRebalance every member has to join again",
 ]
 LEVEL_TEXT = ("Lean 4 theorems about the executable model: restoreGroupState(cloneConsumerGroup(buildConsumerGroup(s))) has the same "
-              "view (generation, phase, leader, member set, subscriptions, session timeouts, assignments, rebalance timeout) as s, "
-              "for every group state with positive timeouts and a valid leader; in every state reachable without store faults the "
-              "persisted image of each loaded group is its current image, so a failover at any point between requests restores "
-              "the same view; heartbeat/sync/commit of a current member get the same reply from the restored coordinator. The "
-              "pre-fix cloneConsumerGroup violates it (witness). Tied to the source by the differential run with failovers at "
-              "random points and a monitor that compares the dump before the failover with the dump after the reload.")
+              "view (generation, phase, leader, protocol, member set, subscriptions, session timeouts, last heartbeats, assignments, "
+              "rebalance timeout) as s, for every well-formed group state; in every state reachable by a history without injected "
+              "store faults every loaded group is well formed and its persisted image is current (invariant), so a failover after "
+              "ANY such history followed by a load restores the same view (failover_preserves_view), and heartbeat / sync of a "
+              "current member of a Stable group are answered NONE (same assignment) by the new coordinator. The pre-fix "
+              "cloneConsumerGroup violates it (witness). Tied to the source by the differential run with failovers at random "
+              "points on the in-memory AND the etcd store, and a monitor comparing the dump before the failover with the dump after the reload.")
 TECHNIQUE = "Lean 4 proof (round trip + invariant over reachable states) + Go/Lean differential correspondence + property monitor"
 
 PROFILE = G.profile(etcd_quick=10, etcd_thorough=60, weights={"failover": 10, "failover_lazy": 3, "join": 8, "sync": 8, "hb": 8, "commit": 4, "fail": 0, "tick": 4, "meta": 1},
@@ -74,7 +76,7 @@ def monitor(tr):
 
 
 def run(ck):
-    G.run_property(ck, PROFILE, monitor, n_quick=60, n_thorough=600, nops=45, rule=RULE)
+    G.run_property(ck, PROFILE, monitor, n_quick=200, n_thorough=2000, nops=45, rule=RULE)
 
 
 def replay(ck, path):
